@@ -130,9 +130,10 @@ def _from_rel(r: int, op) -> bool:
 
 
 class AbstractEval:
-    def __init__(self, region: Dict[str, Any], canon=None):
+    def __init__(self, region: Dict[str, Any], canon=None, def_of=None):
         self.region = region
         self.canon = canon  # optional: maps a definition-site term to the text of the atom it denotes
+        self.def_of = def_of  # optional: definition-site term → the expression assigned there
 
     def ev(self, node: ast.AST) -> Any:
         txt = ast.unparse(node)
@@ -144,6 +145,12 @@ class AbstractEval:
                 return self.region[c]
         if isinstance(node, ast.Constant):
             return node.value
+        if isinstance(node, ast.JoinedStr):
+            return "<text>"  # a formatted string: some non-empty text (truthy, not None)
+        if isinstance(node, ast.Name) and self.def_of is not None:
+            d = self.def_of(node.id)
+            if d is not None and not (isinstance(d, ast.Name) and d.id == node.id):
+                return self.ev(d)
         if isinstance(node, ast.UnaryOp):
             if isinstance(node.op, ast.Not):
                 return not self.truth(node.operand)
@@ -194,7 +201,7 @@ class Cascade(PathAnalysis):
 
     def __init__(self, fn_node, region: Dict[str, Any], canon=None):
         super().__init__(fn_node)
-        self.aev = AbstractEval(region, (lambda term: canon(term, self.defs)) if canon is not None else None)
+        self.aev = AbstractEval(region, (lambda term: canon(term, self.defs)) if canon is not None else None, def_of=lambda term: self.defs.get(term, ("", None))[1])
 
     def cond(self, state: PState, test, pol: bool):
         t = subst(test, state)
